@@ -357,9 +357,11 @@ def inventory(ctx):
             if isinstance(node, (ast.For, ast.comprehension)) and isinstance(node.iter, (ast.Set, ast.SetComp)):
                 bad.append("iteration over a set display")
         okd = not bad
-        ctx.record(fam2, PROVED if okd else REFUTED, {"module": m})
+        # a MAY-analysis: a mention of a clock / random source / id() is not yet a dependence of results on it.  It withdraws the static argument (UNDECIDED);
+        # whether results depend on history or process is decided by the behavioural clauses (cold/warm, call order, two processes with different hash seeds)
+        ctx.record(fam2, PROVED if okd else UNKNOWN, {"module": m})
         if not okd:
-            ctx.violate(fam2, f"nondet:{m}:{sorted(set(bad))}", f"module {m} uses nondeterministic sources: {sorted(set(bad))}", {"module": m, "uses": sorted(set(bad))}, has_input=False)
+            ctx.undecide(fam2, f"module {m} mentions sources of nondeterminism {sorted(set(bad))}: the static determinism argument is withdrawn")
 
 
 DIGEST_SCRIPT = r'''
